@@ -428,6 +428,7 @@ func c12Outgoing(r *mon.Run, rng *rand.Rand, p *c12Pair, at string, star *rfix.S
 		r.Violation("C12:fixture-parse", "reference parser rejects a generated one-hop packet", p.wit(at, ingress, inIf, "", o, raw, nil, ""))
 		return
 	}
+	raw0 := append([]byte(nil), raw...)
 	res := star.Process(raw, in)
 	r.Eval(1)
 	cs := fmt.Sprintf("src=%s dst=%s egress=%s mac=%s consdir=%v", srcKind, dstKind, egKind, mp, o.ConsDir)
@@ -473,6 +474,22 @@ func c12Outgoing(r *mon.Run, rng *rand.Rand, p *c12Pair, at string, star *rfix.S
 			return
 		}
 		r.Event("outgoing_invalid_rejected")
+		// a sender that was refused tries again: the very same packet, the same
+		// processor - the verdict must be the same
+		res2 := star.Process(append([]byte(nil), raw0...), in)
+		r.Eval(1)
+		switch {
+		case res2.Panic != "":
+			r.Violation("C12:panic:"+mon.PanicSite(res2.Stack), "panic: "+res2.Panic, p.wit(at, ingress, inIf, cs, o, raw0, nil, res2.Stack))
+		case res2.Forwarded() && !srcLocal:
+			r.Violation("C12:sent-foreign-source/retry", "a refused one-hop packet whose source is not the local AS was sent on when presented again", p.wit(at, ingress, inIf, cs, o, raw0, res2.Out, ""))
+		case res2.Forwarded() && !macOK:
+			r.Violation("C12:sent-invalid-mac/retry", "a refused one-hop packet whose first hop field MAC is not valid was sent on when presented again", p.wit(at, ingress, inIf, cs, o, raw0, res2.Out, ""))
+		case res2.Forwarded() && !dstOK:
+			r.Violation("C12:sent-wrong-neighbour/retry", "a refused one-hop packet for another AS than the egress neighbour was sent on when presented again", p.wit(at, ingress, inIf, cs, o, raw0, res2.Out, ""))
+		case !res2.Forwarded():
+			r.Event("outgoing_invalid_rejected_again")
+		}
 	}
 	if !sent || !chain || res.OutScope != router.External || res.Egress != p.IfA || at != "A" {
 		return
